@@ -2,7 +2,7 @@
 from .common import *
 
 SIDECARS = ["modbus", "protocol_cmd", "protocol_sm"]
-PROPS = ("C04", "C05", "C06", "C07", "C08", "C09", "C10", "C01")
+PROPS = ("C04", "C05", "C06", "C07", "C08", "C09", "C10", "C01", "C03")
 H = "pyvc.protocol_harness"
 CALLBACKS = {"udp": ("datagram_received", "error_received", "connection_lost", "_timeout_mechanism"),
              "tcp": ("data_received", "error_received", "connection_lost", "eof_received", "_timeout_mechanism")}
@@ -34,7 +34,7 @@ def binding_units(tier):
     """the validator each command class carries, on the command built by its real constructor (C01; its raises-only
     clause is also what the transport state machine assumes of `command.validator`)"""
     from pyvc.protocol_harness import BINDING_CLASSES
-    return [("script", SIDECARS, H, "command_binding", f"binding:{c}", ("C01", "C04"), tier, {"clsname": c})
+    return [("script", SIDECARS, H, "command_binding", f"binding:{c}", ("C01", "C02", "C04"), tier, {"clsname": c})
             for c in BINDING_CLASSES]
 
 
